@@ -32,7 +32,7 @@ pub struct TableSnapshot {
 }
 
 impl TableSnapshot {
-    fn new(table: &RoutingTable) -> Self {
+    pub(crate) fn new(table: &RoutingTable) -> Self {
         Self {
             id: *table.id(),
             nodes: table
